@@ -372,7 +372,10 @@ class Interp(Ops):
         if isinstance(v, VBool):
             return VStr(z3.If(v.term, z3.StringVal("True"), z3.StringVal("False")))
         if isinstance(v, VOpt):
-            return self.to_str(self.unopt(v))
+            inner = self.to_str(v.val)
+            return VStr(z3.If(v.isnone, z3.StringVal("None"), inner.term))
+        if isinstance(v, VNoneT):
+            return VStr("None")
         raise Unsupported(f"str() of {v!r}")
 
     def e_IfExp(self, e, fr):
@@ -694,6 +697,9 @@ class Interp(Ops):
                 ok = True
                 for cond in g.ifs:
                     t = self.truth(self.eval(cond, inner))
+                    if not isinstance(t, bool):
+                        t = z3.simplify(t)
+                        t = True if z3.is_true(t) else (False if z3.is_false(t) else t)
                     if self.spec_mode and not isinstance(t, bool):
                         raise Unsupported("symbolic filter in a specification comprehension")
                     if not (t if isinstance(t, bool) else self.st.branch(t)):
@@ -832,7 +838,7 @@ class Interp(Ops):
             tag = fn.tag or "callable"
             c = self.db.lookup(f"{tag}.__call__")
             if c is None:
-                raise Unsupported(f"call of an opaque callable without contract '{tag}.__call__'")
+                raise Unsupported(f"call of an opaque callable without contract '{tag}.__call__' at line {getattr(node, 'lineno', '?')}")
             if c.is_async and not awaited:
                 return VCoro(fn, args, kwargs, node)
             am = {"fn": fn, "args": VTuple(args), "kwargs": self.new_dict(kwargs)}
